@@ -198,6 +198,14 @@ GROUPS += [
         "bounds": "5 response kinds x 3 protocol payloads x {v4,v6} (10 representative combinations), every field of the "
                   "response, configuration and window symbolic",
     },
+    {
+        "id": "C03.recv_gates", "property": ["C03", "C01"], "crate": "core",
+        "harnesses": ["c03_recv_response_"], "jobs": 2, "timeout_s": 1200, "mem_gb": 20,
+        "functions": STRAT_FNS + STATE_FNS, "stubs": [NET_STUB],
+        "bounds": "the composed receive step recv_response (validate, from, check_trace_id, in_round as wired by the real "
+                  "code) for an echo reply naming the sequence just below the round (previous round's last) / just beyond "
+                  "the 512-slot window, window (33434, 3); unwind 2",
+    },
     # ------------------------------------------------------------------ C02
     {
         "id": "C02.identity", "property": ["C02", "C03"], "crate": "core", "harnesses": ["c02_identity"], "jobs": 6,
@@ -331,7 +339,7 @@ GROUPS += [
     },
     {
         "id": "T.decision", "property": ["C03", "C01"], "crate": "core", "tier": "thorough",
-        "harnesses": ["t03_recv_decision"], "jobs": 8, "timeout_s": 300, "mem_gb": 8,
+        "harnesses": ["t03_recv_decision", "t03_recv_response_"], "jobs": 4, "timeout_s": 600, "mem_gb": 14,
         "functions": STRAT_FNS + ["TracerState::in_round"],
         "bounds": "the remaining 8 response-kind x payload x family combinations (all 18 reachable ones covered with the quick tier)",
     },
